@@ -38,6 +38,16 @@ Proof.
 Qed.
 Print Assumptions C31_module_key_injective.
 
+(* name lookup: an archive compiled from a loader whose listed names are in normal form finds,
+   for EVERY requested spelling, exactly the template the normalising source loader finds (and
+   none when split_template_path rejects the name) *)
+Theorem C31_load_agrees_with_source : forall (sha1_hex : str -> str) (normal : str -> option str) (names : list str) (name : str),
+  (forall a b, sha1_hex a = sha1_hex b -> a = b) ->
+  (forall n, existsb (str_eqb n) names = true -> normal n = Some n) ->
+  module_load sha1_hex normal (compile_archive sha1_hex names) name = source_load normal names name.
+Proof. intros sha1_hex normal names name Hinj Hn. exact (load_agrees sha1_hex Hinj normal names name Hn). Qed.
+Print Assumptions C31_load_agrees_with_source.
+
 Example C31_example :
   probe_case true None (Some 7%N) = Some (Done 7%N) /\ probe_case false (Some 7%N) None = Some (Done 7%N) /\
   probe_case true None None = Some NameError /\ probe_case false None (Some 7%N) = None /\
